@@ -74,8 +74,18 @@ theorem put_if_none_match (cfg : Cfg) (rights : Rights) (user : String) (s : Sto
 
 /-- a conditional DELETE of an item that is carried out found exactly the ETag it asked for -/
 theorem delete_if_match (cfg : Cfg) (rights : Rights) (user : String) (s : Store) (p : Path) (e : Option Nat)
-    (parent : Path) (c : Coll) (h : String) (it : Item) (hr : resolve s p = .item parent c h it) :
-    ∀ u, (deleteU cfg rights user s p (some e)).2 = some u → e = some it.cid := by
+    (parent : Path) (c : Coll) (h : String) (it : Item) (hr : resolve s p = .item parent c h it) (imc) :
+    ∀ u, (deleteU cfg rights user s p (some e) imc).2 = some u → e = some it.cid := by
+  intro u
+  unfold deleteU
+  simp only [hr]
+  repeat' split
+  all_goals simp_all
+
+/-- DELETE of a collection with If-Match is carried out only if the header is the collection's current ETag -/
+theorem delete_coll_if_match (cfg : Cfg) (rights : Rights) (user : String) (s : Store) (p : Path) (e : Option Nat) (c : Coll)
+    (hr : resolve s p = .coll p c) (imc) :
+    ∀ u, (deleteU cfg rights user s p (some e) imc).2 = some u → imc = some (collEtag c) := by
   intro u
   unfold deleteU
   simp only [hr]
